@@ -15,12 +15,21 @@
     is classified: covered by one of the theorems below, by a syntactic rule, or by a reviewed
     benign-reason in /verif/tables/c08_sites.json.
 
+    Round 2 adds node-local ACTIVITY to the model: executions on discarded state branches
+    (CheckTx, simulation, failed transactions) and restarts are operations ([nop]); process memory
+    is not branchable; [node_local_activity_invisible_partial] / [two_nodes_same_history_partial]
+    show that over every such life of a node the state and the results are those of the chain
+    history alone; [pointer_cache_refuted] shows that the inventory's "no store-derived data kept
+    in process memory" is needed; [jail_loop_order_is_state] that the prune job's jailing loop is
+    order-sensitive and iterates state, not a map.
+
     What is NOT proved (hence *_partial / partial: true): a Gallina model cannot exhibit the
     runtime itself — the Go runtime's real map-seed randomisation, goroutine scheduling, a real
-    process environment, a stale in-memory object surviving between ABCI calls, a restarted
+    process environment, the real cache-context / IAVL implementation, a really restarted OS
     process, and every handler outside the modelled ones (they contain no inventory site, which is
     a statement about syntax, not about their semantics).  Those are exercised by twin executions
-    of the real code (harness/c08), which is testing.
+    of the real code (harness/c08: keeper-level operations and full-application block histories
+    with simulated-only transactions, never-finalised blocks and restarts), which is testing.
 
     Reading aid.  [amb_ok a]: every [ord_*] field returns a permutation of its argument.
     [tx_wf]: the keys of a Go map are distinct; the evidence step needs C04's snapshot sanity. *)
